@@ -134,3 +134,62 @@ def big(acts, **kw):
              **comps(BIG_COMPS, falsy={'c1', 'c3', 'c7'}), **procs(*BIG_PROCS))
     K.update(kw)
     return K
+
+
+def repo_tests_validate(res, node='tests/test_logic.py::TestWorld'):
+    """Pipeline B on the repository's own World tests: they run unmodified under harness/pytest_recorder.py; each
+    test becomes one trace with its own constants (classes, instances, handler declarations read off the objects the
+    test used) and is validated by TLC against WorldTrace.tla with every invariant of World.tla on."""
+    import json
+    import os
+    import subprocess
+    from concurrent.futures import ThreadPoolExecutor
+    from .. import tracecheck, tla, replay as _rp
+    if _rp.REPLAY is not None:
+        return
+    out = os.path.join(res.scratch, 'repo_world_tests.json')
+    env = dict(os.environ, VERIF_TRACE_OUT_WORLD=out, PYTHONPATH=common.VERIF + os.pathsep + os.environ.get('PYTHONPATH', ''))
+    p = subprocess.run(['/venv/bin/python', '-m', 'pytest', '-q', '-p', 'no:cacheprovider', '-p', 'harness.pytest_recorder', node],
+                       cwd=common.REPO, env=env, stdout=subprocess.PIPE, stderr=subprocess.STDOUT, text=True, timeout=600)
+    if not os.path.exists(out):
+        raise common.MachineryError('recording the repository World tests failed:\n' + p.stdout[-2000:])
+    recs = json.load(open(out))
+    usable = [r for r in recs if not r['unsupported'] and r['events'] and r['constants']]
+
+    def one(k):
+        r = usable[k]
+        C = r['constants']
+        K = base(Acts={'create', 'create2', 'add', 'remove', 'delete', 'process', 'clear', 'toggle', 'proc', 'ghost'},
+                 Ids=set(C['Ids']), MaxAuto=C['MaxAuto'], Types=set(C['Types']), Bases={t: set(b) for t, b in C['Bases'].items()},
+                 Comps=set(C['Comps']), TypeOf=C['TypeOf'], Decl={c: set(d) for c, d in C['Decl'].items()},
+                 Procs=set(C['Procs']), PTypes=set(C['PTypes']), PBases={t: set(b) for t, b in C['PBases'].items()},
+                 PTypeOf=C['PTypeOf'], PDefault=C['PDefault'], PDecl={c: set(d) for c, d in C['PDecl'].items()},
+                 Prios=set(C['Prios']), Dts=set(C['Dts']), MaxQ=1000)
+        gen = 'WorldTrace_repo%d' % k
+        defs, consts, ov = [], {}, {}
+        for kk, v in K.items():
+            if kk.startswith('_'):
+                continue
+            if isinstance(v, (bool, int)):
+                consts[kk] = tla.to_tla(v)
+            else:
+                defs.append('K_%s == %s' % (kk, tla.to_tla(v)))
+                ov[kk] = 'K_' + kk
+        with open(os.path.join(res.specdir, gen + '.tla'), 'w') as f:
+            f.write('---- MODULE %s ----\nEXTENDS WorldTrace\n%s\n====\n' % (gen, '\n'.join(defs)))
+        return tracecheck.validate(res, gen, 'repo-test-%d' % k, [{'events': r['events']}], consts, overrides=ov,
+                                   invariants=INVARIANTS, shards=1)
+
+    with ThreadPoolExecutor(8) as ex:
+        results = list(ex.map(one, range(len(usable))))
+    bad = [(usable[k]['test'], rej[0][1]) for k, rej in enumerate(results) if rej]
+    res.traces += len(usable) - len(bad)
+    res.cov.setdefault('trace_validation', {})['repository-tests'] = {
+        'node': node, 'pytest_tail': p.stdout.strip().split('\n')[-1], 'tests_recorded': len(usable),
+        'accepted': len(usable) - len(bad), 'unsupported': {r['test']: r['unsupported'] for r in recs if r['unsupported']}}
+    for test, at in bad:
+        r = next(x for x in usable if x['test'] == test)
+        res.violation('execution of repository test %s not explained by World.tla (event %s)' % (test, at),
+                      {'test': test, 'matched_events': at, 'constants': r['constants'],
+                       'events': [[e['op'], e['a1'], e['a2'], e['ret']] for e in r['events']],
+                       'next_event': r['events'][at] if isinstance(at, int) and at < len(r['events']) else None})
